@@ -37,6 +37,10 @@ type Params struct {
 	CreateBlock  VerifyParams
 	User         VerifyParams // params.UserVerifyTxn
 	MaxBlockSize uint32
+	// Arbitrating: a node that creates blocks.  When such a node is offered a block it evaluates the fee of every transaction
+	// first, so a transaction whose output hours do not fit 64 bits is refused there (the documented in-block wrap tolerance
+	// only exists on non-arbitrating nodes).
+	Arbitrating bool
 }
 
 // Created records every output the chain ever created and, once spent, by what.
@@ -480,6 +484,9 @@ func (m *Model) CheckBlock(sb *coin.SignedBlock) string {
 		txn := &sb.Body.Transactions[i]
 		if r := m.HardInBlock(txn); r != "" {
 			return "txn:" + r
+		}
+		if m.P.Arbitrating && OutHoursSum(txn).Cmp(Two64) >= 0 {
+			return "txn:output-hours-overflow"
 		}
 		for _, in := range txn.In {
 			if spent[in] {
